@@ -41,13 +41,15 @@ for _k, (_m, _u, _v, _d) in ITEMS.items():
     REV[(_m, _u, _v, _d)] = _k
 
 TITLES = {
-    "V": ["~V", "~Version", "~VERSION INFORMATION", "~v", "~version", "~version information section"],
-    "W": ["~W", "~Well", "~WELL INFORMATION BLOCK", "~w", "~well", "~well information"],
+    "V": ["~V", "~Version", "~VERSION INFORMATION", "~v", "~version", "~version information section", "~Version_Information",
+          "~VERSION INFORMATION (LAS_2.0)"],
+    "W": ["~W", "~Well", "~WELL INFORMATION BLOCK", "~w", "~well", "~well information", "~Well_Information", "~W {site 1} 100% \\d"],
     "C": ["~C", "~Curve", "~CURVE INFORMATION", "~c", "~curve", "~curve information"],
-    "P": ["~P", "~Parameter", "~PARAMETER INFORMATION", "~p", "~params", "~parameter information"],
-    "O": ["~O", "~Other", "~OTHER INFORMATION", "~o", "~other", "~other information"],
+    "P": ["~P", "~Parameter", "~PARAMETER INFORMATION", "~p", "~params", "~parameter information", "~Parameter {run 1}",
+          "~P %s %(x)d {0}"],
+    "O": ["~O", "~Other", "~OTHER INFORMATION", "~o", "~other", "~other information", "~Other_Information"],
     "A": ["~A", "~ASCII", "~ASCII LOG DATA", "~a", "~ascii", "~a  DEPT  GR"],
-    "X1": ["~Tool", "~TOOL SETUP", "~tool", "~tool setup section"],
+    "X1": ["~Tool", "~TOOL SETUP", "~tool", "~tool setup section", "~Tool {setup} %d"],
     "X2": ["~Remarks", "~REMARKS AREA", "~remarks", "~remarks area"],
 }
 CUSTOM_KEY = {"tool": "X1", "remarks": "X2"}
@@ -172,7 +174,9 @@ def concretise(text, rng, style=None):
                 elif cls == "NEAR":
                     toks.append(pick(near_spell, cell["id"]))
                 else:
-                    toks.append("t%d" % cell["id"])
+                    # text values: plain, or quoted with an embedded blank (one value for the quote-aware tokeniser)
+                    q = pick(["t%d", "t%d", "\"t %d\"", "'t %d'"], ("text", cell["id"])) if dlm == "SPACE" else "t%d"
+                    toks.append(q % cell["id"])
             if dlm == "COMMA":
                 sep = rng.choice([",", ", ", " , "])
             elif dlm == "TAB":
@@ -208,13 +212,10 @@ def project_cell(x):
                 return r * 10 + c
         return -99
     if isinstance(x, (str, np.str_)):
-        m = re.match(r"^t(\d+)$", str(x))
+        m = re.match(r"^t ?(\d+)$", str(x))
         if m:
             return 1000 + int(m.group(1))
-        try:
-            return project_cell(float(x))
-        except ValueError:
-            return -98
+        return -98          # any other string, numeric-looking ones included ('nan', '101.25'): not a number, not a text cell
     return -97
 
 
